@@ -109,8 +109,14 @@ func (api *API) mapDecodeBasedOnType(ctx context.Context, mapVal any, value refl
 					fieldKey = *innerTS.fieldKey
 				}
 
-				//nolint:forcetypeassert
-				fieldValStr := mapVal.(map[string]any)[fieldKey].(string)
+				m, ok := mapVal.(map[string]any)
+				if !ok {
+					return ierrors.Errorf("non map[string]any value in map when decoding an array of bytes, got %T instead", mapVal)
+				}
+				fieldValStr, ok := m[fieldKey].(string)
+				if !ok {
+					return ierrors.Errorf("non string value for key %s in map when decoding an array of bytes, got %T instead", fieldKey, m[fieldKey])
+				}
 				byteSlice, err := DecodeHex(fieldValStr)
 				if err != nil {
 					return ierrors.Wrap(err, "failed to read byte slice from map")
@@ -145,7 +151,11 @@ func (api *API) mapDecodeBasedOnType(ctx context.Context, mapVal any, value refl
 		sliceValue := sliceFromArray(value)
 		sliceValueType := sliceValue.Type()
 		if sliceValueType.AssignableTo(bytesType) {
-			byteSlice, err := DecodeHex(mapVal.(string))
+			fieldValStr, ok := mapVal.(string)
+			if !ok {
+				return ierrors.Errorf("non string value in map when decoding an array of bytes, got %T instead", mapVal)
+			}
+			byteSlice, err := DecodeHex(fieldValStr)
 			if err != nil {
 				return ierrors.Wrap(err, "failed to read byte slice from map")
 			}
@@ -179,22 +189,42 @@ func (api *API) mapDecodeBasedOnType(ctx context.Context, mapVal any, value refl
 
 		return nil
 	case reflect.Bool:
+		if _, ok := mapVal.(bool); !ok {
+			return ierrors.Errorf("non bool value for bool field, got %T instead", mapVal)
+		}
+
 		addrValue := value.Addr().Convert(reflect.TypeOf((*bool)(nil)))
 		addrValue.Elem().Set(reflect.ValueOf(mapVal))
 
 		return nil
 	case reflect.Int8, reflect.Int16, reflect.Int32:
-		//nolint:forcetypeassert // false positive, we already checked the type via reflect
-		return api.mapDecodeNum(value, valueType, float64NumParser(mapVal.(float64), value.Kind(), true))
+		num, ok := mapVal.(float64)
+		if !ok {
+			return ierrors.Errorf("non number value for %s field, got %T instead", value.Kind(), mapVal)
+		}
+
+		return api.mapDecodeNum(value, valueType, float64NumParser(num, value.Kind(), true))
 	case reflect.Int64:
-		//nolint:forcetypeassert // false positive, we already checked the type via reflect
-		return api.mapDecodeNum(value, valueType, strNumParser(mapVal.(string), 64, true))
+		str, ok := mapVal.(string)
+		if !ok {
+			return ierrors.Errorf("non string value for %s field, got %T instead", value.Kind(), mapVal)
+		}
+
+		return api.mapDecodeNum(value, valueType, strNumParser(str, 64, true))
 	case reflect.Uint8, reflect.Uint16, reflect.Uint32:
-		//nolint:forcetypeassert // false positive, we already checked the type via reflect
-		return api.mapDecodeNum(value, valueType, float64NumParser(mapVal.(float64), value.Kind(), false))
+		num, ok := mapVal.(float64)
+		if !ok {
+			return ierrors.Errorf("non number value for %s field, got %T instead", value.Kind(), mapVal)
+		}
+
+		return api.mapDecodeNum(value, valueType, float64NumParser(num, value.Kind(), false))
 	case reflect.Uint64:
-		//nolint:forcetypeassert // false positive, we already checked the type via reflect
-		return api.mapDecodeNum(value, valueType, strNumParser(mapVal.(string), 64, false))
+		str, ok := mapVal.(string)
+		if !ok {
+			return ierrors.Errorf("non string value for %s field, got %T instead", value.Kind(), mapVal)
+		}
+
+		return api.mapDecodeNum(value, valueType, strNumParser(str, 64, false))
 	case reflect.Float32, reflect.Float64:
 		return api.mapDecodeFloat(value, valueType, mapVal)
 	default:
@@ -263,7 +293,12 @@ func (api *API) mapDecodeFloat(value reflect.Value, valueType reflect.Type, mapV
 	bitSize, _, addrTypeToConvert := getNumberTypeToConvert(valueType.Kind())
 	addrValue = addrValue.Convert(addrTypeToConvert)
 
-	f, err := strconv.ParseFloat(mapVal.(string), bitSize)
+	str, ok := mapVal.(string)
+	if !ok {
+		return ierrors.Errorf("non string value for %s field, got %T instead", valueType.Kind(), mapVal)
+	}
+
+	f, err := strconv.ParseFloat(str, bitSize)
 	if err != nil {
 		return err
 	}
@@ -289,8 +324,11 @@ func (api *API) mapDecodeInterface(
 	if !has {
 		return ierrors.Errorf("no object type defined in map for interface %s", valueType)
 	}
-	//nolint:forcetypeassert // false positive
-	objectCode := uint32(objectCodeAny.(float64))
+	objectCodeFloat, ok := objectCodeAny.(float64)
+	if !ok {
+		return ierrors.Errorf("non number object type in map for interface %s, got %T instead", valueType, objectCodeAny)
+	}
+	objectCode := uint32(objectCodeFloat)
 
 	objectType, exists := iObjects.GetObjectTypeByCode(objectCode)
 	if !exists || objectType == nil {
@@ -309,8 +347,10 @@ func (api *API) mapDecodeInterface(
 func (api *API) mapDecodeStruct(ctx context.Context, mapVal any, value reflect.Value,
 	valueType reflect.Type, ts TypeSettings, opts *options) error {
 	if valueType == timeType {
-		//nolint:forcetypeassert // false positive, we already checked the type via reflect
-		strVal := mapVal.(string)
+		strVal, ok := mapVal.(string)
+		if !ok {
+			return ierrors.Errorf("non string value in map when decoding a time, got %T instead", mapVal)
+		}
 		nanoTime, err := strconv.ParseUint(strVal, 10, 64)
 		if err != nil {
 			return ierrors.Wrapf(err, "unable to parse time %s map value", strVal)
@@ -420,8 +460,10 @@ func (api *API) mapDecodeStructFields(
 func (api *API) mapDecodeSlice(ctx context.Context, mapVal any, value reflect.Value,
 	valueType reflect.Type, ts TypeSettings, opts *options) error {
 	if valueType.AssignableTo(bytesType) {
-		//nolint:forcetypeassert // false positive, we already checked the type via reflect
-		fieldValStr := mapVal.(string)
+		fieldValStr, ok := mapVal.(string)
+		if !ok {
+			return ierrors.Errorf("non string value in map when decoding a slice of bytes, got %T instead", mapVal)
+		}
 		byteSlice, err := DecodeHex(fieldValStr)
 		if err != nil {
 			return ierrors.Wrap(err, "failed to read byte slice from map")
@@ -440,6 +482,9 @@ func (api *API) mapDecodeSlice(ctx context.Context, mapVal any, value reflect.Va
 	}
 
 	refVal := reflect.ValueOf(mapVal)
+	if refVal.Kind() != reflect.Slice && refVal.Kind() != reflect.Array {
+		return ierrors.Errorf("non slice value in map when decoding a slice, got %T instead", mapVal)
+	}
 	for i := range refVal.Len() {
 		elemValue := reflect.New(valueType.Elem()).Elem()
 		if err := api.mapDecode(ctx, refVal.Index(i).Interface(), elemValue, TypeSettings{}, opts); err != nil {
